@@ -272,6 +272,10 @@ class StrFold:
         c = callee or ""
         m = c.split("::")[-1]
         a0 = args[0] if args else None
+        if a0 is not None and m in ("from_str", "parse", "as_str", "len", "is_empty") and isinstance(a0, tuple) and a0[0] in ("array", "iterv") and len(a0) > 1 and isinstance(a0[1], list) \
+                and a0[1] and all(isinstance(x, tuple) and x[0] == "lit" and isinstance(x[1], str) and len(x[1]) == 1 for x in a0[1]) and ("str" in c or "String" in c):
+            a0 = ("lit", "".join(x[1] for x in a0[1]))           # characters collected into a String
+            args = [a0] + list(args[1:])
         s0 = as_str(a0) if a0 is not None else None
         # ---- constructors
         if c in ("alloc::string::String::new",) and not args:
@@ -541,7 +545,8 @@ class StrFold:
 
 
 def ev_ty(ev, c):
-    return ""
+    """type of the call expression being folded (`text.parse()` names its target only in the type of the result)"""
+    return getattr(ev, "cur_ty", "") or ""
 
 
 # ====================================================================================================== numeric reading of an abstract string
